@@ -45,6 +45,8 @@ type stepper struct {
 	handle   arrow.RecordBatch
 	handleMD arrow.Metadata
 	isPtr    bool
+	via      string
+	xs       *xchgSession // exchange_http: the stream the batch came from
 
 	// fetch
 	g       *gate
@@ -205,6 +207,10 @@ func (s *stepper) externalize(st replay.Step) (replay.Obs, error) {
 	sz, rows := replay.Str(st.Args, "sz"), replay.Int(st.Args, "rows")
 	metaClass, cfgKind := replay.Str(st.Args, "meta"), replay.Str(st.Args, "cfg")
 	rng := s.rng
+	s.via = replay.Str(st.Args, "via")
+	if s.via != "" && s.via != "api" {
+		return s.externalizeDispatch(sz, rows, cfgKind)
+	}
 
 	schema := drawSchema(rng, false)
 	md := s.drawCustomMeta(metaClass)
@@ -399,14 +405,150 @@ func (s *stepper) resolve(st replay.Step) (replay.Obs, error) {
 	if got == in {
 		why = "passthrough"
 	}
-	if d := compareBatches(s.orig, got); d != "" {
+	var wild []string
+	if s.via == "exchange_http" {
+		wild = []string{vgirpc.MetaStreamState} // a fresh token every turn: presence is compared, usability below
+	}
+	if d := compareBatchesWild(s.orig, got, wild); d != "" {
 		obs["res"] = "differs:" + d
 		obs["__note__"] = fmt.Sprintf("original %d rows meta=%v; resolved %d rows meta=%v",
 			s.orig.NumRows(), customMeta(s.orig), got.NumRows(), customMeta(got))
+	} else if note := s.continueStream(got); note != "" {
+		obs["res"] = "differs:metadata(token unusable)"
+		obs["__note__"] = note
 	} else {
 		obs["res"] = "orig"
 	}
 	obs["why"] = why
+	return obs, nil
+}
+
+// continueStream: the continuation token recovered from the resolved exchange
+// batch must carry the stream on (custom metadata equal to the original's means
+// it is *the* token, not just some value under the key).
+func (s *stepper) continueStream(got arrow.RecordBatch) string {
+	if s.via != "exchange_http" || s.xs == nil {
+		return ""
+	}
+	tok, ok := customMeta(got).GetValue(vgirpc.MetaStreamState)
+	if !ok || tok == "" {
+		return "resolved exchange batch carries no continuation token"
+	}
+	s.xs.token = []byte(tok)
+	code, body := s.xs.turn(2)
+	if code != 200 {
+		return fmt.Sprintf("continuing the stream with the recovered token: HTTP %d %.200s", code, body)
+	}
+	b, _, err := lastPayloadBatch(body)
+	if err != nil {
+		return "continuing the stream with the recovered token: " + err.Error()
+	}
+	b.Release()
+	return ""
+}
+
+// externalizeDispatch reaches externalizeBatchCtx through a dispatch path and
+// takes the payload batch of the response as "what externalize returned".
+func (s *stepper) externalizeDispatch(sz string, rows int, cfgKind string) (replay.Obs, error) {
+	rng := s.rng
+	s.store = newMemStore(rng)
+	threshold := int64(1) << 40
+	if sz == "large" {
+		threshold = 1 // every non-empty batch is at or above it
+	}
+	var cfg *vgirpc.ExternalLocationConfig
+	switch cfgKind {
+	case "nil":
+	case "nostorage":
+		cfg = &vgirpc.ExternalLocationConfig{ExternalizeThresholdBytes: threshold}
+	case "plain":
+		cfg = &vgirpc.ExternalLocationConfig{Storage: s.store, ExternalizeThresholdBytes: threshold}
+	case "zstd":
+		cfg = &vgirpc.ExternalLocationConfig{Storage: s.store, ExternalizeThresholdBytes: threshold,
+			Compression: &vgirpc.Compression{Algorithm: "zstd", Level: 1 + rng.Intn(3)}}
+	default:
+		return nil, fmt.Errorf("unknown cfg %q", cfgKind)
+	}
+	srv := newServer(cfg, cfgKind != "nil")
+	var body []byte
+	switch s.via {
+	case "unary_pipe", "unary_http":
+		n := int64(100 + rng.Intn(2000))
+		if sz == "large" {
+			n = int64(20000 + rng.Intn(80000))
+		}
+		req := blobRequest(n, rng.Int63n(1<<40))
+		// oracle: the same call answered by a server without external storage
+		var ref bytes.Buffer
+		newServer(nil, false).Serve(bytes.NewReader(req), &ref)
+		want, _, err := lastPayloadBatch(ref.Bytes())
+		if err != nil {
+			return nil, fmt.Errorf("reference call: %w", err)
+		}
+		s.orig = s.hold(want)
+		if s.via == "unary_pipe" {
+			var out bytes.Buffer
+			srv.Serve(bytes.NewReader(req), &out)
+			body = out.Bytes()
+		} else {
+			h := vgirpc.NewHttpServer(srv)
+			h.InitPages()
+			code, b := postHTTP(h, "/blob", req)
+			if code != 200 {
+				return replay.Obs{"ptr": fmt.Sprintf("HTTP %d: %.200s", code, b)}, nil
+			}
+			body = b
+		}
+	case "exchange_http":
+		n := rows
+		wide := 0
+		if rows == 2 {
+			n = 2 + rng.Intn(200)
+		}
+		if sz == "large" {
+			wide = 100 + rng.Intn(400)
+			if rows == 1 {
+				wide = 5000 + rng.Intn(20000)
+			}
+		}
+		st := &xState{Seed: rng.Int63n(1 << 40), Rows: n, Wide: wide, UserMeta: rng.Intn(2) == 0}
+		h := vgirpc.NewHttpServer(srv)
+		h.InitPages()
+		s.xs = &xchgSession{h: h}
+		if err := s.xs.init(st.Seed, st.Rows, st.Wide, st.UserMeta); err != nil {
+			return nil, err
+		}
+		// oracle: the batch the handler emits on turn 1, with the per-emit metadata
+		// and a continuation token merged in
+		eb, emd := xBatch(st, 1)
+		keys, vals := []string{}, []string{}
+		for k, v := range emd {
+			keys, vals = append(keys, k), append(vals, v)
+		}
+		keys, vals = append(keys, vgirpc.MetaStreamState), append(vals, "*")
+		want := array.NewRecordBatchWithMetadata(xOutSchema, eb.Columns(), eb.NumRows(), arrow.NewMetadata(keys, vals))
+		eb.Release()
+		s.orig = s.hold(want)
+		code, b := s.xs.turn(1)
+		if code != 200 {
+			return replay.Obs{"ptr": fmt.Sprintf("HTTP %d: %.200s", code, b)}, nil
+		}
+		body = b
+	default:
+		return nil, fmt.Errorf("unknown via %q", s.via)
+	}
+	out, outMD, err := lastPayloadBatch(body)
+	if err != nil {
+		return replay.Obs{"ptr": "error: " + err.Error()}, nil
+	}
+	s.hold(out)
+	s.handle, s.handleMD = out, outMD
+	_, hasLoc := outMD.GetValue(vgirpc.MetaLocation)
+	s.isPtr = out.NumRows() == 0 && hasLoc
+	obs := replay.Obs{"ptr": s.isPtr}
+	if s.isPtr != (len(s.store.uploads) == 1) {
+		obs["ptr"] = fmt.Sprintf("pointer=%v but %d objects were uploaded", s.isPtr, len(s.store.uploads))
+	}
 	return obs, nil
 }
 
